@@ -157,7 +157,6 @@ func (f *MemFile) Close() error {
 	}
 
 	f.dirEntries = nil
-	f.dirNames = nil
 	f.nd = nil
 
 	return nil
@@ -340,39 +339,7 @@ func (f *MemFile) ReadDir(n int) (entries []fs.DirEntry, err error) {
 		return nil, &fs.PathError{Op: op, Path: f.name, Err: f.vfs.err.NotADirectory}
 	}
 
-	if n <= 0 || f.dirEntries == nil {
-		nd.mu.RLock()
-		entries = nd.dirEntries()
-		nd.mu.RUnlock()
-
-		f.dirIndex = 0
-
-		if n <= 0 {
-			f.dirEntries = nil
-
-			return entries, nil
-		}
-
-		f.dirEntries = entries
-	}
-
-	start := f.dirIndex
-	if start >= len(f.dirEntries) {
-		f.dirIndex = 0
-		f.dirEntries = nil
-
-		return nil, io.EOF
-	}
-
-	// n may be as large as math.MaxInt: start + n must not overflow.
-	end := len(f.dirEntries)
-	if n < end-start {
-		end = start + n
-	}
-
-	f.dirIndex = end
-
-	return f.dirEntries[start:end], nil
+	return f.readDirEntries(nd, n)
 }
 
 // Readdirnames reads and returns a slice of names from the directory f.
@@ -418,39 +385,53 @@ func (f *MemFile) Readdirnames(n int) (names []string, err error) {
 		return nil, &fs.PathError{Op: op, Path: f.name, Err: f.vfs.err.NotADirectory}
 	}
 
-	if n <= 0 || f.dirNames == nil {
+	entries, err := f.readDirEntries(nd, n)
+	if err != nil {
+		return nil, err
+	}
+
+	names = make([]string, len(entries))
+	for i, entry := range entries {
+		names[i] = entry.Name()
+	}
+
+	return names, nil
+}
+
+// readDirEntries returns the next n entries of the directory nd, or all the remaining ones if n <= 0.
+// ReadDir and Readdirnames share one cursor over a listing of the directory taken by the first of them
+// called after the file was opened or rewound by Seek(0, io.SeekStart), as the directory stream of an os.File :
+// each entry is delivered once, io.EOF is returned for n > 0 at the end of the listing, and the cursor stays there.
+func (f *MemFile) readDirEntries(nd *dirNode, n int) ([]fs.DirEntry, error) {
+	if f.dirEntries == nil {
 		nd.mu.RLock()
-		names = nd.dirNames()
+		f.dirEntries = nd.dirEntries()
 		nd.mu.RUnlock()
 
-		f.dirIndex = 0
-
-		if n <= 0 {
-			f.dirNames = nil
-
-			return names, nil
+		if f.dirEntries == nil {
+			f.dirEntries = []fs.DirEntry{}
 		}
 
-		f.dirNames = names
+		f.dirIndex = 0
 	}
 
 	start := f.dirIndex
-	if start >= len(f.dirNames) {
-		f.dirIndex = 0
-		f.dirNames = nil
+	end := len(f.dirEntries)
 
-		return nil, io.EOF
-	}
+	if n > 0 {
+		if start >= end {
+			return nil, io.EOF
+		}
 
-	// n may be as large as math.MaxInt: start + n must not overflow.
-	end := len(f.dirNames)
-	if n < end-start {
-		end = start + n
+		// n may be as large as math.MaxInt: start + n must not overflow.
+		if n < end-start {
+			end = start + n
+		}
 	}
 
 	f.dirIndex = end
 
-	return f.dirNames[start:end], nil
+	return f.dirEntries[start:end:end], nil
 }
 
 // Seek sets the offset for the next Read or Write on file to offset, interpreted
@@ -478,6 +459,13 @@ func (f *MemFile) Seek(offset int64, whence int) (ret int64, err error) {
 
 	nd, ok := f.nd.(*fileNode)
 	if !ok {
+		// As os.File does, Seek(0, io.SeekStart) on a directory rewinds : the next ReadDir or Readdirnames
+		// lists the directory again.
+		if offset == 0 && whence == io.SeekStart {
+			f.dirEntries = nil
+			f.dirIndex = 0
+		}
+
 		return 0, nil
 	}
 
